@@ -189,6 +189,12 @@ def run(ctx):
         ba = [a for a in T.all_atoms(arg).values() if a.kind == 'call' and a.args[0] == 'bytearray'][0]
         padterm = ba.args[1][0]
         las = len_atom(padterm)
+        if not las and any(a.kind == 'call' and a.args[0] in ('.tell', 'tell', '.seek') for a in T.all_atoms(padterm).values()):
+            # the amount of padding is computed from the position in the FILE, not from the length of this header: from the second
+            # block of a file on that is a different number whenever BLOCSIZE is not a multiple of 512
+            ctx.ob('FORMULA', 'the padding after a header is (-80 * cards) mod 512: a function of that header\'s own length, as the four '
+                   'readers compute it', mk, False, {'padding': pretty(padterm)[:200]}, node=e.node, construct=e.text()[:80] + ' [amount]')
+            continue
         ctx.require(len(las) == 1, f'_make_header: cannot identify the card counter in {pretty(padterm)}')
         # L = (#dict items) + 1 for END: the counter term itself is what is multiplied by 80
         # find the header_lines value: evaluate with len := n  =>  counter = n + 1
